@@ -44,7 +44,9 @@ type guard struct {
 	Timeout bool   `json:"timeout,omitempty"`
 }
 
-func guarded(f func()) guard {
+func guarded(f func()) guard { return guardedFor(3*time.Second, f) }
+
+func guardedFor(d time.Duration, f func()) guard {
 	done := make(chan guard, 1)
 	go func() {
 		var g guard
@@ -59,7 +61,7 @@ func guarded(f func()) guard {
 	select {
 	case g := <-done:
 		return g
-	case <-time.After(3 * time.Second):
+	case <-time.After(d):
 		return guard{Timeout: true}
 	}
 }
@@ -809,6 +811,8 @@ func main() {
 		}
 	}
 
+	u8Listings(c, r.Fork(), pf, profiles, thorough)
+
 	// discover
 	nd := 40
 	if thorough {
@@ -836,6 +840,23 @@ func main() {
 		discoverCase(c, pf, vlib.Pick(r, types), genRounds(r))
 		c.Count("discover")
 	}
+	// listings whose names are multi-byte and of boundary lengths, through the real client, service and registry
+	ru := r.Fork()
+	for i := 0; i < map[bool]int{false: 6, true: 120}[thorough]; i++ {
+		rs := genRounds(ru)
+		for k := range rs {
+			for j := range rs[k].Names {
+				if rs[k].Names[j] != "" && strings.TrimSpace(rs[k].Names[j]) != "" && ru.Chance(2, 3) {
+					rs[k].Names[j] = u8String(ru, u8Alphabets[1+ru.Intn(4)], vlib.Pick(ru, []int{4, 19, 20, 21, 22, 24, 63, 64, 65, 127, 128, 129, 255, 256, 257, 1023, 1024, 1025, 4095, 4096, 4097, 8192, 65536}))
+				}
+			}
+			if rs[k].Class == "dup" && len(rs[k].Names) > 2 { // keep the duplicates duplicates
+				rs[k].Names[len(rs[k].Names)-2] = rs[k].Names[0]
+			}
+		}
+		discoverCase(c, pf, vlib.Pick(ru, types), rs)
+		c.Count("discover.u8")
+	}
 
 	// metrics + clamps
 	ex, err := metrics.NewExtractor(pf, log)
@@ -859,6 +880,7 @@ func main() {
 			}
 		}
 	}
+	u8Metrics(c, r.Fork(), ex, thorough)
 	// division by zero / overflow shapes for the derived tokens-per-second
 	for _, s := range []string{
 		`{"done":true,"eval_count":298,"eval_duration":0,"prompt_eval_count":1,"prompt_eval_duration":0,"total_duration":0}`,
@@ -925,6 +947,7 @@ func main() {
 			xlateCase(c, tr, streamSeed, true, "seed")
 		}
 	}
+	u8Translator(c, r.Fork(), tr, thorough)
 	// relays through the running stack: error bodies and success bodies of every size and shape
 	type rb struct {
 		how  string
@@ -934,7 +957,10 @@ func main() {
 	bodies := []rb{{"small-json", "application/json", []byte(`{"error":{"message":"boom"}}`)}, {"empty", "application/json", nil},
 		{"garbage", "text/html", []byte("<html>\x00\xff\xfe</html>")}, {"70KiB", "text/plain", bytes.Repeat([]byte("e"), 70<<10)},
 		{"256KiB", "application/json", []byte(`{"error":{"message":"` + strings.Repeat("x", 256<<10) + `"}}`)}, {"2MiB", "text/html", bytes.Repeat([]byte("<p>trace</p>\n"), 150000)},
-		{"wrong-shape", "application/json", []byte(`{"choices":[]}`)}, {"sse-garbage", "text/event-stream", []byte("data: {not json\n\ndata: [DONE]\n\n")}}
+		{"wrong-shape", "application/json", []byte(`{"choices":[]}`)},
+		// short multi-byte payloads where JSON was expected (tool arguments, a data: line), 21 bytes / 7 characters and around
+		{"u8-args", "application/json", respBody(r, "args", u8String(r, u8Alphabets[2], 21))}, {"u8-args-emoji", "application/json", respBody(r, "args", u8Runes(r, u8Alphabets[3], 5+r.Intn(12)))},
+		{"u8-sse-line", "text/event-stream", streamBody(r, "dataline", u8String(r, u8Alphabets[1+r.Intn(4)], 21+r.Intn(44)))}, {"sse-garbage", "text/event-stream", []byte("data: {not json\n\ndata: [DONE]\n\n")}}
 	type rj struct {
 		engine, route string
 		stream        bool
